@@ -1,9 +1,9 @@
 /-
-  Helper lemmas for the range bounds of the form `K ++ [0]` ("just after K": the continue key of a paginated
-  list, the end of a single-key range) — `encodeBound` = `backend.encodeRangeBound` (/repo 146f0bb).
+  Helper lemmas for ARBITRARY range bounds — `encodeBound` = `backend.encodeRangeBound` (/repo 23c8b93: a raw
+  bound is cut at its first byte at or below the key/revision separator; before that, 146f0bb, only a bound
+  `K ++ [0]` was recognised).
   The lemmas of KB.Lemmas.Scan about `doList` / `doCount` on an encoded store, generalised from bounds over
-  the alphabet to `RangeBound`s (a key over the alphabet or the successor of one): the records read are
-  exactly those of the raw keys between the RAW bounds.
+  the alphabet to ALL byte strings: the records read are exactly those of the raw keys between the RAW bounds.
 -/
 import KB.Lemmas.Scan
 import KB.Props.C03
@@ -11,22 +11,35 @@ namespace KB
 open Generated
 
 theorem iterate_asc_encodeStore_bounds (q : Quirks) {recs : List Rec}
-    (hk : ∀ r ∈ recs, Alphabet r.key ∧ r.rev < 2 ^ 64) {a b : Bytes} (ha : RangeBound a) (hb : RangeBound b)
-    (hab : cmp a b = .lt) :
+    (hk : ∀ r ∈ recs, Alphabet r.key ∧ r.rev < 2 ^ 64) {a b : Bytes} (hab : cmp a b = .lt) :
     iterate q (encodeStore recs) (encodeBound a) (encodeBound b) 0 = encodeStore (recs.filter (inRange a b)) := by
-  have hlt : cmp (encodeBound a) (encodeBound b) = .lt := encodeBound_lt ha hb hab
-  simp only [iterate, applyLimit, hlt, if_true, iterAsc]
-  rw [encodeStore_def, encodeStore_def, List.filter_map]
-  congr 1
-  apply List.filter_congr
-  intro r hr
-  obtain ⟨h1, h2⟩ := hk r hr
-  simp only [Function.comp, encRec, inRange]
-  rw [Bool.eq_iff_iff, Bool.and_eq_true, Bool.and_eq_true]
-  exact C10.range_bounds_exact' ha hb h1 h2
+  have hfil : ∀ r ∈ recs, (ble (encodeBound a) (encRec r).1 && blt (encRec r).1 (encodeBound b)) = inRange a b r := by
+    intro r hr
+    obtain ⟨h1, h2⟩ := hk r hr
+    simp only [encRec, inRange]
+    rw [Bool.eq_iff_iff, Bool.and_eq_true, Bool.and_eq_true]
+    exact C10.range_bounds_exact' h1 h2
+  rcases encodeBound_lt_or_eq hab with hlt | ⟨heq, _⟩
+  · simp only [iterate, applyLimit, hlt, if_true, iterAsc]
+    rw [encodeStore_def, encodeStore_def, List.filter_map]
+    congr 1
+    apply List.filter_congr
+    intro r hr
+    exact hfil r hr
+  · -- both bounds are cut behind the same key: the scanned interval is empty, and no key lies between
+    have hnone : recs.filter (inRange a b) = [] := by
+      rw [List.filter_eq_nil_iff]
+      intro r hr
+      rw [← hfil r hr, heq]
+      cases h1 : ble (encodeBound b) (encRec r).1
+      · simp
+      · have := not_blt_iff_ble.mpr h1
+        simp [this]
+    rw [hnone]
+    simp [iterate, applyLimit, heq, encodeStore_def]
 
 theorem scanParts_encodeStore_bounds (c : Cfg) (hsplit : c.splits = []) {recs : List Rec}
-    (hk : ∀ r ∈ recs, Alphabet r.key ∧ r.rev < 2 ^ 64) {a b : Bytes} (ha : RangeBound a) (hb : RangeBound b)
+    (hk : ∀ r ∈ recs, Alphabet r.key ∧ r.rev < 2 ^ 64) {a b : Bytes}
     (hab : cmp a b = .lt) (rev : Nat) :
     scanParts c (encodeStore recs) (encodeBound a) (encodeBound b) rev =
       .ok [scanRecs rev (recs.filter (inRange a b))] := by
@@ -34,12 +47,12 @@ theorem scanParts_encodeStore_bounds (c : Cfg) (hsplit : c.splits = []) {recs : 
     decodeRecs_encodeStore (fun r hr => (hk r (List.mem_filter.mp hr).1).2)
   have hplain : WCfg.Plain { R := rev, supportTTL := c.q.supportTTL } := ⟨rfl, rfl⟩
   simp only [scanParts, belowFloor_encodeStore, Bool.false_eq_true, if_false,
-    scanPartitions_single hsplit, List.map_cons, List.map_nil, iterate_asc_encodeStore_bounds c.q hk ha hb hab,
+    scanPartitions_single hsplit, List.map_cons, List.map_nil, iterate_asc_encodeStore_bounds c.q hk hab,
     hdec, hasPanic_workerActs hplain, emits_decoded hplain]
   simp
 
 theorem scanLimited_encodeStore_bounds (c : Cfg) {recs : List Rec}
-    (hk : ∀ r ∈ recs, Alphabet r.key ∧ r.rev < 2 ^ 64) {a b : Bytes} (ha : RangeBound a) (hb : RangeBound b)
+    (hk : ∀ r ∈ recs, Alphabet r.key ∧ r.rev < 2 ^ 64) {a b : Bytes}
     (hab : cmp a b = .lt) (rev lim : Nat) :
     scanLimited c (encodeStore recs) (encodeBound a) (encodeBound b) rev lim =
       .ok ((scanRecs rev (recs.filter (inRange a b))).take lim) := by
@@ -47,25 +60,25 @@ theorem scanLimited_encodeStore_bounds (c : Cfg) {recs : List Rec}
     decodeRecs_encodeStore (fun r hr => (hk r (List.mem_filter.mp hr).1).2)
   have hplain : WCfg.Plain { R := rev, supportTTL := c.q.supportTTL } := ⟨rfl, rfl⟩
   simp only [scanLimited, belowFloor_encodeStore, Bool.false_eq_true, if_false,
-    iterate_asc_encodeStore_bounds c.q hk ha hb hab, hdec, emits_decoded hplain]
+    iterate_asc_encodeStore_bounds c.q hk hab, hdec, emits_decoded hplain]
 
 theorem doList_bounds_unlimited (c : Cfg) (hsplit : c.splits = []) (s : BState) {recs : List Rec}
     (hstore : s.store = encodeStore recs) (hk : ∀ r ∈ recs, Alphabet r.key ∧ r.rev < 2 ^ 64)
-    {a b : Bytes} (ha : RangeBound a) (hb : RangeBound b) (hab : cmp a b = .lt) (R : Nat) :
+    {a b : Bytes} (hab : cmp a b = .lt) (R : Nat) :
     doList c s a b R 0 =
       .ok { hdr := hdrOf s.committed (scanRecs (if R == 0 then s.committed else R) (recs.filter (inRange a b))),
             more := false,
             kvs := scanRecs (if R == 0 then s.committed else R) (recs.filter (inRange a b)) } := by
-  simp [doList, not_isEmpty_of_lt hab, hab, hstore, scanParts_encodeStore_bounds c hsplit hk ha hb hab]
+  simp [doList, not_isEmpty_of_lt hab, hab, hstore, scanParts_encodeStore_bounds c hsplit hk hab]
 
 theorem doList_bounds_limited (c : Cfg) (s : BState) {recs : List Rec}
     (hstore : s.store = encodeStore recs) (hk : ∀ r ∈ recs, Alphabet r.key ∧ r.rev < 2 ^ 64)
-    {a b : Bytes} (ha : RangeBound a) (hb : RangeBound b) (hab : cmp a b = .lt) (R : Nat) {n : Nat} (hn : 0 < n) :
+    {a b : Bytes} (hab : cmp a b = .lt) (R : Nat) {n : Nat} (hn : 0 < n) :
     doList c s a b R n =
       .ok { hdr := hdrOf s.committed ((scanRecs (if R == 0 then s.committed else R) (recs.filter (inRange a b))).take n),
             more := decide (n < (scanRecs (if R == 0 then s.committed else R) (recs.filter (inRange a b))).length),
             kvs := (scanRecs (if R == 0 then s.committed else R) (recs.filter (inRange a b))).take n } := by
-  simp only [doList, not_isEmpty_of_lt hab, hab, hstore, scanLimited_encodeStore_bounds c hk ha hb hab]
+  simp only [doList, not_isEmpty_of_lt hab, hab, hstore, scanLimited_encodeStore_bounds c hk hab]
   have hmin : min n (n + 1) = n := by omega
   simp only [Bool.false_eq_true, if_false, bne_self_eq_false, gt_iff_lt, hn, if_true, List.length_take,
     List.take_take, hmin]
@@ -74,15 +87,15 @@ theorem doList_bounds_limited (c : Cfg) (s : BState) {recs : List Rec}
 
 theorem doCount_bounds (c : Cfg) (hsplit : c.splits = []) (hcompat : c.etcdCompat = true) (s : BState)
     {recs : List Rec} (hstore : s.store = encodeStore recs) (hk : ∀ r ∈ recs, Alphabet r.key ∧ r.rev < 2 ^ 64)
-    {a b : Bytes} (ha : RangeBound a) (hb : RangeBound b) (hab : cmp a b = .lt) :
+    {a b : Bytes} (hab : cmp a b = .lt) :
     doCount c s a b = .ok (s.committed, (scanRecs s.committed (recs.filter (inRange a b))).length) := by
-  simp [doCount, hcompat, hstore, scanParts_encodeStore_bounds c hsplit hk ha hb hab]
+  simp [doCount, hcompat, hstore, scanParts_encodeStore_bounds c hsplit hk hab]
 
-/-- `C03.list_spec` for bounds that are keys or successors of keys: the kvs are the scan of exactly the
+/-- `C03.list_spec` for arbitrary bounds: the kvs are the scan of exactly the
 records of the raw keys `k` with `a ≤ k < b` in `bytes.Compare` order on RAW keys. -/
 theorem doList_bounds_spec (c : Cfg) (hsplit : c.splits = []) (s : BState) {recs : List Rec}
     (hstore : s.store = encodeStore recs) (hk : ∀ r ∈ recs, Alphabet r.key ∧ r.rev < 2 ^ 64)
-    (a b : Bytes) (ha : RangeBound a) (hb : RangeBound b) (hab : cmp a b = .lt) (R n : Nat) :
+    (a b : Bytes) (hab : cmp a b = .lt) (R n : Nat) :
     let full := scanRecs (C03.readRev R s.committed) (recs.filter (fun r => ble a r.key && blt r.key b))
     ∃ res, doList c s a b R n = .ok res ∧ res.hdr = hdrOf s.committed res.kvs ∧
       res.kvs = (if n = 0 then full else full.take n) ∧ (res.more = true ↔ (0 < n ∧ n < full.length)) := by
@@ -90,11 +103,11 @@ theorem doList_bounds_spec (c : Cfg) (hsplit : c.splits = []) (s : BState) {recs
   have hfull : full = scanRecs (if R == 0 then s.committed else R) (recs.filter (inRange a b)) := rfl
   by_cases hn : n = 0
   · subst hn
-    refine ⟨_, doList_bounds_unlimited c hsplit s hstore hk ha hb hab R, rfl, ?_, ?_⟩
+    refine ⟨_, doList_bounds_unlimited c hsplit s hstore hk hab R, rfl, ?_, ?_⟩
     · simp [hfull]
     · simp
   · have hpos : 0 < n := by omega
-    refine ⟨_, doList_bounds_limited c s hstore hk ha hb hab R hpos, rfl, ?_, ?_⟩
+    refine ⟨_, doList_bounds_limited c s hstore hk hab R hpos, rfl, ?_, ?_⟩
     · simp [hn, hfull]
     · simp [hpos, hfull]
 
